@@ -314,7 +314,10 @@ class World:
 
     # ---------------------------------------------------------------- class facts
     def isinstance_term(self, ref_term, qual):
-        ids = [self.class_id[q] for q in [qual] + self.subclasses(qual)]
+        # objects are instances of concrete classes only (abstract classes cannot be instantiated)
+        ids = [self.class_id[q] for q in [qual] + self.subclasses(qual) if not self.classes[q].get("is_abstract")]
+        if not ids:
+            ids = [self.class_id[qual]]
         t = self.cls_of(ref_term)
         return z3.And(ref_term != self.null, z3.Or([t == i for i in ids]))
 
